@@ -51,6 +51,7 @@ from dask.array.utils import (
     asarray_safe,
     compute_meta,
     meta_from_array,
+    validate_axis,
 )
 from dask.base import (
     DaskMethodsMixin,
@@ -6158,6 +6159,7 @@ def to_npy_stack(dirname, x, axis=0):
     from_npy_stack
     """
 
+    axis = validate_axis(axis, x.ndim)
     chunks = tuple((c if i == axis else (sum(c),)) for i, c in enumerate(x.chunks))
     xx = x.rechunk(chunks)
 
